@@ -789,19 +789,39 @@ fn sweep_small_palettes(sh: &Shared) -> (u64, u64) {
         }
         v
     };
-    let n = lat.len() as u64;
-    let total = n + n * n + n * n * n;
+    // palettes of four and five colours over coarser lattices: the search tree gets a second level on both sides,
+    // so a sub-tree of two or three entries is split on the green or the blue axis
+    let cube = |l: &[u8]| -> Vec<[u8; 3]> {
+        let mut v = vec![];
+        for r in l {
+            for g in l {
+                for b in l {
+                    v.push([*r, *g, *b]);
+                }
+            }
+        }
+        v
+    };
+    let lat3 = cube(&[0, 128, 255]);
+    let lat2 = cube(&[0, 255]);
+    let spaces: Vec<(&Vec<[u8; 3]>, u32)> = vec![(&lat, 1), (&lat, 2), (&lat, 3), (&lat3, 4), (&lat2, 5)];
+    let sizes: Vec<u64> = spaces.iter().map(|(l, k)| (l.len() as u64).pow(*k)).collect();
+    let total: u64 = sizes.iter().sum();
     let evals = AtomicU64::new(0);
     (0..total).into_par_iter().for_each(|i| {
-        let colors: Vec<[u8; 3]> = if i < n {
-            vec![lat[i as usize]]
-        } else if i < n + n * n {
-            let j = i - n;
-            vec![lat[(j % n) as usize], lat[(j / n) as usize]]
-        } else {
-            let j = i - n - n * n;
-            vec![lat[(j % n) as usize], lat[(j / n % n) as usize], lat[(j / n / n) as usize]]
-        };
+        let mut j = i;
+        let mut si = 0;
+        while j >= sizes[si] {
+            j -= sizes[si];
+            si += 1;
+        }
+        let (l, k) = spaces[si];
+        let n = l.len() as u64;
+        let mut colors: Vec<[u8; 3]> = Vec::with_capacity(k as usize);
+        for _ in 0..k {
+            colors.push(l[(j % n) as usize]);
+            j /= n;
+        }
         let pal = match catch(|| ColorPalette::new(colors.iter().map(|c| RGBA::new(c[0], c[1], c[2], 255)).collect())) {
             Ok(Some(p)) => p,
             _ => {
